@@ -2,6 +2,7 @@ import MorfuseModel.Sched.Machine
 import MorfuseModel.Sched.MachineHostProps
 import MorfuseModel.Sched.MachineInstHost
 import MorfuseModel.Sched.MachineInstReset
+import MorfuseModel.Sched.MachineIdleHost
 /-!
 # C13 — nothing outlives its script: idle means empty, reset means clean
 
@@ -275,15 +276,19 @@ theorem C13_machine_suspended_not_idle {s : State} (h : Reachable s) :
     | cons a l => rfl
 
 /-- **Quiescent means idle, machine level.**  In every reachable state in which no thread record is live
-    and the event queue is drained, the director's instance list, the timer and both listener tables are
-    empty and the engine's idle flag is up.
-    (That the queue holds no event of a dead thread is not part of the invariant — `cancelEvents` runs in
-    every thread destructor, compared with the engine — hence the hypothesis.) -/
+    the director's instance list, the event queue, the timer and both listener tables are empty and the
+    engine's idle flag is up.  (The queue: every queued event belongs to a thread whose VM is not destroyed —
+    clause `e` of the instance-list invariant.) -/
 theorem C13_machine_quiescent_means_idle {s : State} (h : Reachable s) :
     s.outOfFuel = true ∨
-      ((∀ t th, s.th? t = some th → th.dead = true) → s.events = [] →
-        idleFlag s = true ∧ s.insts = [] ∧ s.timer.elems = [] ∧ s.notify = [] ∧ s.waitFor = []) := by
-  refine (reachable_hinv2 h).map (fun hi hq hev => ?_)
+      ((∀ t th, s.th? t = some th → th.dead = true) →
+        idleFlag s = true ∧ s.insts = [] ∧ s.events = [] ∧ s.timer.elems = [] ∧ s.notify = [] ∧ s.waitFor = []) := by
+  refine (reachable_hinv2 h).map (fun hi hq => ?_)
+  have hev : s.events = [] := by
+    apply List.eq_nil_iff_forall_not_mem.2
+    intro ev he
+    obtain ⟨th, h1, h2⟩ := hi.j.e ev he
+    exact h2 ((hi.h.inv.th ev.1 th h1).f2 (hq ev.1 th h1)).2
   have hI : s.insts = [] := by
     cases hL : s.insts with
     | nil => rfl
@@ -295,7 +300,7 @@ theorem C13_machine_quiescent_means_idle {s : State} (h : Reachable s) :
       obtain ⟨th, h1, h2, _⟩ := b3 u hu
       rw [hq u th h1] at h2; cases h2
   obtain ⟨q1, q2, q3⟩ := hi.h.inv.quiescent_empty hq
-  exact ⟨by unfold idleFlag; rw [hI, hev]; rfl, hI, q1, q2, q3⟩
+  exact ⟨by unfold idleFlag; rw [hI, hev]; rfl, hI, hev, q1, q2, q3⟩
 
 /-- **Every listed instance is alive, machine level**: in every reachable state each instance in the
     director's list has a non-empty chain without duplicates, every member is a live thread record of that
@@ -324,53 +329,70 @@ example : (runOps {} demoQuiesce).insts = [(1, [101, 100])] ∧ idleFlag (runOps
 example : (runOps {} [.script [[.waitthread 1, .mark 1], [.thread 2, .wait 5], [.wait 9]] [0, 0, 0], .call 0 []]).insts =
     [(2, [102, 101]), (1, [100])] := by decide +kernel
 
-/-- **`Reset()` is clean, machine level (partial).**  After `director.Reset()` in any reachable state (unless
-    out of fuel): no script instance is listed, no thread record has a VM, the timer and both listener
-    tables are empty, no program is compiled — and the machine invariant holds again.
-    *Missing for "bookkeeping equal to the initial state's"*: that no record at all is left (`threads = []`:
-    needs "between host operations every VM is idle", so that each destructor also frees the record) and
-    that the event queue is empty (`cancelEvents` in every destructor; events are not part of the
-    invariant).  Both are compared with the engine (pool counts, `ev=` after every command). -/
-theorem C13_machine_reset_clean_partial {s : State} (h : Reachable s) :
+/-- **Between host operations every thread is complete and idle, machine level.**  In every reachable
+    state every thread record has its VM and the VM is `idling`: no destructor and no `ScriptVM::Execute` is
+    in progress, no dead record is waiting for its VM to unwind — so the thread pool and the VM pool count
+    the same objects (`thr = vm` in the driver's trailer). -/
+theorem C13_machine_all_idle_between_ops {s : State} (h : Reachable s) :
+    s.outOfFuel = true ∨ ∀ t th, s.th? t = some th → th.hasVM = true ∧ th.vm = .idling ∧ th.dead = false := by
+  refine (reachable_hinv3 h).map (fun hi t th hf => ?_)
+  rcases hi.w t th hf with ⟨c1, c2⟩ | m
+  · refine ⟨c1, c2, ?_⟩
+    cases hd : th.dead with
+    | false => rfl
+    | true => have := ((hi.h2.h.inv.th t th hf).f2 hd).1; rw [c1] at this; cases this
+  · cases m
+
+/-- **`Reset()` is clean, machine level.**  After `director.Reset()` in any reachable state (unless out of
+    fuel) the scheduler's bookkeeping is that of the initial state: no thread record, no script instance, no
+    queued event, empty timer, empty listener tables, no program, no current thread, empty execution stack,
+    the idle flag up — and every invariant holds again, so compiling and calling afterwards behave as the
+    theorems say.  (Host-owned state survives by design: the clock, the host's objects with their `endon`
+    lists, the host's result slots — see `C05_machine_reset_leaves_slots`.) -/
+theorem C13_machine_reset_clean {s : State} (h : Reachable s) :
     (hostReset s).outOfFuel = true ∨
-      ((hostReset s).insts = [] ∧ (∀ t th, (hostReset s).th? t = some th → th.hasVM = false) ∧
+      ((hostReset s).threads = [] ∧ (hostReset s).insts = [] ∧ (hostReset s).events = [] ∧
        (hostReset s).timer.elems = [] ∧ (hostReset s).notify = [] ∧ (hostReset s).waitFor = [] ∧
-       (hostReset s).prog = [] ∧ HInv2 (hostReset s)) := by
+       (hostReset s).prog = [] ∧ (hostReset s).cur = none ∧ (hostReset s).depth = 0 ∧
+       idleFlag (hostReset s) = true ∧ HInv3 (hostReset s)) := by
   have hr : Reachable (HostOp.apply s .resetDirector) := .step .resetDirector h trivial
-  have h2 : Ok (hostReset s) (HInv2 (hostReset s)) := reachable_hinv2 hr
-  rcases reachable_hinv2 h with ho | hi
+  have h3 : Ok (hostReset s) (HInv3 (hostReset s)) := reachable_hinv3 hr
+  rcases reachable_hinv3 h with ho | hi
   · exact Or.inl ((hostReset_hr s).oof ho)
-  · rcases killAllInsts_clean hi with ho | ⟨p1, p2, p3, p4, p5⟩
+  · rcases killAllInsts_empty hi with ho | ⟨p0, p1, p2, p3, p4, p5⟩
     · exact Or.inl ho
-    · rcases h2 with ho | q2
+    · rcases h3 with ho | q
       · exact Or.inl ho
-      · exact Or.inr ⟨p1, p2, p3, p4, p5, rfl, q2⟩
+      · refine Or.inr ⟨p0, p1, p2, p3, p4, p5, rfl, q.h2.h.cur, q.h2.h.depth, ?_, q⟩
+        show (List.isEmpty (killAllInsts s).insts && List.isEmpty (killAllInsts s).events) = true
+        rw [p1, p2]; rfl
 
 /-- **Recompiling destroys every instance of the old program, machine level.**  `GetProgramScript(…,
     recompile)` while a program is loaded (the machine has one program per context): afterwards (unless out
-    of fuel) no instance of the old version is listed and no thread of it has a VM; the new program is
-    installed and the invariant holds. -/
+    of fuel) no instance and no thread of the old version is left, no event is queued, the timer is empty;
+    the new program is installed and every invariant holds. -/
 theorem C13_machine_recompile_kills_old_instances {s : State} (h : Reachable s) (p : List (List Instr))
     (ps : List Nat) (hp : ProgOK p) (hold : s.prog.isEmpty = false) :
     (hostScript s p ps).outOfFuel = true ∨
-      ((hostScript s p ps).insts = [] ∧ (∀ t th, (hostScript s p ps).th? t = some th → th.hasVM = false) ∧
-       (hostScript s p ps).timer.elems = [] ∧ (hostScript s p ps).prog = p ∧ HInv2 (hostScript s p ps)) := by
+      ((hostScript s p ps).insts = [] ∧ (hostScript s p ps).threads = [] ∧ (hostScript s p ps).events = [] ∧
+       (hostScript s p ps).timer.elems = [] ∧ (hostScript s p ps).prog = p ∧ HInv3 (hostScript s p ps)) := by
   have hr : Reachable (HostOp.apply s (.script p ps)) := .step (.script p ps) h hp
-  have h2 : Ok (hostScript s p ps) (HInv2 (hostScript s p ps)) := reachable_hinv2 hr
+  have h2 : Ok (hostScript s p ps) (HInv3 (hostScript s p ps)) := reachable_hinv3 hr
   have he : hostScript s p ps = { killAllInsts s with prog := p, progParams := ps } := by
     unfold hostScript; simp [hold]
-  rcases reachable_hinv2 h with ho | hi
+  rcases reachable_hinv3 h with ho | hi
   · exact Or.inl ((hostScript_hr s p ps).oof ho)
-  · rcases killAllInsts_clean hi with ho | ⟨p1, p2, p3, _, _⟩
+  · rcases killAllInsts_empty hi with ho | ⟨p0, p1, p2, p3, _, _⟩
     · left; rw [he]; exact ho
     · rcases h2 with ho | q2
       · exact Or.inl ho
       · right
         rw [he] at q2 ⊢
-        exact ⟨p1, p2, p3, rfl, q2⟩
+        exact ⟨p1, p0, p2, p3, rfl, q2⟩
 
 /-- `Reset()` in the suspended demo state -/
-example : (hostReset (runOps {} demoQuiesce)).outOfFuel = false ∧ (hostReset (runOps {} demoQuiesce)).insts = [] := by
+example : (hostReset (runOps {} demoQuiesce)).outOfFuel = false ∧ (hostReset (runOps {} demoQuiesce)).insts = [] ∧
+    (hostReset (runOps {} demoQuiesce)).threads = [] := by
   decide +kernel
 
 end Morfuse.Sched
